@@ -1416,6 +1416,20 @@ def r18(R):
                 seen[0] += 1
                 if id(op.ast) in protected:
                     continue
+                # `X.back and self._loadBack_impl(oid, X.back, ...)`: the
+                # call is not evaluated for a zero backpointer
+                want = ast.unparse(op.ast.args[1])
+                short = False
+                for bo in ast.walk(node.ast):
+                    if isinstance(bo, ast.BoolOp) and isinstance(
+                            bo.op, ast.And):
+                        for i, v in enumerate(bo.values):
+                            if any(x is op.ast for x in ast.walk(v)) and any(
+                                    ast.unparse(u) == want
+                                    for u in bo.values[:i]):
+                                short = True
+                if short:
+                    continue
                 if ast.unparse(op.ast.args[1]) not in st:
                     return Violation(
                         'restore() (through %s) follows the backpointer '
@@ -1437,3 +1451,52 @@ def r18(R):
     for v in vs[:1]:
         R.violation(v.node, v.message, g, v.path,
                     key='zero backpointer followed on a restore path')
+
+
+# ----------------------------------------------------------------- C17.R19
+@rule('C17.R19', 'the copy loops make no assumption about the data of a '
+      'record beyond handing it on: the record of an un-creation has None '
+      '(no len(), no slicing, no decoding of it unguarded)',
+      min_instances=3)
+def r19(R):
+    fns = [R.prog.func('ZODB.BaseStorage.copy'),
+           R.prog.func('ZODB.blob.copyTransactionsFromTo'),
+           R.prog.func('ZODB.fsrecover.recover')]
+    for f in fns:
+        R.instance('%s' % f.qualname)
+        # record variables: targets of loops in the function
+        recs = {l.target.id for l in walk_local(f.node)
+                if isinstance(l, ast.For) and isinstance(l.target, ast.Name)}
+
+        def is_data(e):
+            return isinstance(e, ast.Attribute) and e.attr == 'data' and \
+                isinstance(e.value, ast.Name) and e.value.id in recs
+
+        guarded = set()
+        for t in walk_local(f.node):
+            if isinstance(t, (ast.If, ast.IfExp)) and any(
+                    is_data(x) for x in ast.walk(t.test)):
+                body = t.body if isinstance(t.body, list) else [t.body]
+                other = t.orelse if isinstance(t.orelse, list) else [t.orelse]
+                guarded |= {id(x) for s_ in body + other
+                            for x in ast.walk(s_)}
+        for c in walk_local(f.node):
+            bad = None
+            if isinstance(c, ast.Call) and isinstance(c.func, ast.Name) and \
+                    c.func.id == 'len' and c.args and is_data(c.args[0]):
+                bad = c
+            if isinstance(c, ast.Subscript) and is_data(c.value):
+                bad = c
+            if isinstance(c, ast.Call) and isinstance(
+                    c.func, ast.Attribute) and is_data(c.func.value):
+                bad = c                      # r.data.<method>()
+            if bad is not None and id(bad) not in guarded:
+                R.violation(
+                    (f.module.relpath, f.qualname,
+                     ' '.join(ast.unparse(bad).split()), bad.lineno),
+                    '%s evaluates `%s` for every record: the record of an '
+                    'un-creation (the undo of a creation, a deleteObject) '
+                    'has no data -- the copy fails there with TypeError '
+                    'and stops after a prefix of the source' % (
+                        f.qualname, ' '.join(ast.unparse(bad).split())),
+                    key='record data assumed to be bytes')
